@@ -99,6 +99,34 @@ def witness_search(tier, seed):
                 if bak and os.path.exists(kw["backup_filename"]) and what != "backup-unopenable":
                     if open(kw["backup_filename"], "rb").read().decode(enc0).replace("\r\n", "\n") != str(sf0):
                         return dict(input=info, detail="the backup that was written does not hold the original simfile")
+        # an in-memory filesystem keeps CR LF inside values: the backup written before a failing output still parses to the original
+        from fs.memoryfs import MemoryFS
+        for ext, text in ((".sm", "#TITLE:a;\r\n#BGCHANGES:1=x\r\n,2=y;\r\n#NOTES:dance-single:d:Easy:1:0,0,0,0,0:\r\n0000\r\n;\r\n"),
+                          (".ssc", "#VERSION:0.83;\r\n#BGCHANGES:1=x\r\n,2=y;\r\n#NOTEDATA:;\r\n#NOTES:0000\r\n0000\r\n;\r\n")):
+            mem = MemoryFS()
+            mem.writebytes("in" + ext, text.encode("utf-8"))
+            sf0, enc0 = simfile.open_with_detected_encoding("in" + ext, filesystem=mem)
+            escaped = None
+            try:
+                with simfile.mutate("in" + ext, output_filename="missing-dir/out" + ext, backup_filename="bak" + ext, filesystem=mem) as sf:
+                    sf.title = "edited"
+            except BaseException as e:
+                escaped = e
+            if escaped is None:
+                continue
+            if mem.readbytes("in" + ext) != text.encode("utf-8"):
+                return dict(input=dict(filesystem="MemoryFS", text=text), detail="input changed although saving failed")
+            if mem.exists("bak" + ext):
+                back = simfile.open("bak" + ext, filesystem=mem, encoding=enc0)
+                if list(back.items()) != list(sf0.items()) or [list(c.items()) for c in back.charts] != [list(c.items()) for c in sf0.charts]:
+                    diff = [k for k in sf0 if back.get(k) != sf0.get(k)]
+                    return dict(input=dict(filesystem="MemoryFS", text=text, fault="output-unopenable"),
+                                detail=f"the backup that was written does not parse to the simfile at block entry (keys {diff})")
         return None
     finally:
         shutil.rmtree(d, ignore_errors=True)
+
+
+# supplier units (see props/suppliers.py)
+from props import suppliers as _S   # noqa: E402
+UNITS = _S.extend(UNITS, _S.open_detect(), _S.loaders(), _S.serializers())
